@@ -1176,7 +1176,7 @@ pub fn compute(file: &File, r: &Rendered) -> Out {
                     match args.last().map(|a| &a.e) {
                         Some(E::Str(parts)) => {
                             let lit_tok = r.loc_tok_of(args.last().unwrap().id).unwrap_or(usize::MAX);
-                            let clean = parts.len() == 1 && !parts[0].starts_with("unicode") && !parts[0].contains('\\');
+                            let clean = parts.len() == 1 && !parts[0].contains('\\');
                             let content_len = if parts[0].starts_with("unicode") { parts[0].len().saturating_sub(9) } else { parts[0].len().saturating_sub(2) };
                             req.push((vec![lit_tok, call_tok], content_len, clean, format!("len{}", content_len.min(40))));
                         }
@@ -1654,8 +1654,8 @@ fn selfdestruct_spec(w: &mut W, f: &Func, in_contract: bool) {
         let ctx = format!("{:?}/{}", f.kind, vis.unwrap_or("none"));
         if f.kind == FnKind::Constructor {
             w.not("unprotected_selfdestruct", t, "in-constructor", &ctx);
-        } else if !in_contract || f.kind != FnKind::Function {
-            w.dc("unprotected_selfdestruct", &[t], "modifier-fallback-or-free-function", &ctx);
+        } else if !in_contract || f.kind == FnKind::Modifier {
+            w.dc("unprotected_selfdestruct", &[t], "modifier-or-free-function", &ctx);
         } else if matches!(vis, Some("internal") | Some("private")) {
             w.not("unprotected_selfdestruct", t, "internal-or-private", &ctx);
         } else if vis.is_none() {
